@@ -183,6 +183,7 @@ class Text(JupyterMixin):
             _Span = Span
             text = Text(
                 self.plain[offset],
+                style=self.style,
                 spans=[
                     _Span(0, 1, style)
                     for start, end, style in self._spans
@@ -193,6 +194,10 @@ class Text(JupyterMixin):
             return text
 
         if isinstance(slice, int):
+            if slice < 0:
+                slice += len(self.plain)
+                if slice < 0:
+                    raise IndexError("Text index out of range")
             return get_text_at(slice)
         else:
             start, stop, step = slice.indices(len(self.plain))
